@@ -337,6 +337,76 @@ def _sym_blocks(fn):
     return ok, detail
 
 
+def _enum_blocks(fn):
+    loops = [l for l in walk_no_nested(fn) if isinstance(l, ast.For)]
+    defs = [(s.targets[0].id, s.value) for s in loops[0].body if isinstance(s, ast.Assign) and isinstance(s.targets[0], ast.Name)]
+    names = [n for n, _ in defs]
+    for need in ('nLoc', 'iLoc'):
+        if need not in names:
+            raise AnalysisError(f'localBounds: definition of {need} not found')
+
+    def ev(n, env):
+        if isinstance(n, ast.Constant) and isinstance(n.value, (int, bool)):
+            return int(n.value)
+        if isinstance(n, ast.Name):
+            if n.id in env:
+                return env[n.id]
+            raise AnalysisError(f'localBounds: unknown name {n.id}')
+        if isinstance(n, ast.BinOp):
+            a, b = ev(n.left, env), ev(n.right, env)
+            if isinstance(n.op, ast.Add):
+                return a + b
+            if isinstance(n.op, ast.Sub):
+                return a - b
+            if isinstance(n.op, ast.Mult):
+                return a * b
+            if isinstance(n.op, (ast.FloorDiv, ast.Mod)):
+                if b == 0:
+                    raise ZeroDivisionError
+                return a // b if isinstance(n.op, ast.FloorDiv) else a % b
+        if isinstance(n, ast.UnaryOp) and isinstance(n.op, ast.USub):
+            return -ev(n.operand, env)
+        if isinstance(n, ast.Compare) and len(n.ops) == 1:
+            a, b = ev(n.left, env), ev(n.comparators[0], env)
+            return int({ast.Lt: a < b, ast.LtE: a <= b, ast.Gt: a > b, ast.GtE: a >= b, ast.Eq: a == b, ast.NotEq: a != b}[type(n.ops[0])])
+        if isinstance(n, ast.IfExp):
+            return ev(n.body, env) if ev(n.test, env) else ev(n.orelse, env)
+        if isinstance(n, ast.Call) and ast.unparse(n.func) in ('min', 'max', 'int') and not n.keywords:
+            vals = [ev(a, env) for a in n.args]
+            return {'min': min, 'max': max, 'int': lambda *v: int(v[0])}[ast.unparse(n.func)](*vals)
+        raise AnalysisError(f'localBounds: cannot evaluate {ast.unparse(n)}')
+
+    def bounds(rank, P, B):
+        env = {'rank': rank, 'nPoints': P, 'nBlocks': B}
+        for name, val in defs:
+            env[name] = ev(val, env)
+        return env['iLoc'], env['nLoc']
+
+    bad = []
+    cases = 0
+    for P in range(1, 49):
+        for B in range(1, min(P, 9) + 1):
+            cases += 1
+            try:
+                pos = 0
+                for rk in range(B):
+                    i, n = bounds(rk, P, B)
+                    if i != pos or n < 0:
+                        bad.append(f'nPoints={P}, nBlocks={B}: rank {rk} starts at {i} (expected {pos}), size {n}')
+                        break
+                    pos += n
+                else:
+                    if pos != P:
+                        bad.append(f'nPoints={P}, nBlocks={B}: blocks cover {pos} of {P} points')
+            except ZeroDivisionError:
+                bad.append(f'nPoints={P}, nBlocks={B}: division by zero')
+            if len(bad) >= 3:
+                break
+        if len(bad) >= 3:
+            break
+    return (not bad), (bad or [f'{cases} (nPoints, nBlocks) cases tile exactly'])
+
+
 @rule('C16', 'C16.R6', 'block decomposition tiles each direction: iLoc(0) = 0, iLoc(r+1) = iLoc(r) + nLoc(r) in every ordering of rank and nRest, sizes add up to nPoints (symbolic case analysis)', floor=1)
 def r6(ctx, R):
     repo = ctx.repo
@@ -344,8 +414,14 @@ def r6(ctx, R):
     fn = repo.func(rel, 'BlockDecomposition.localBounds')
     w = f'{rel}:BlockDecomposition.localBounds'
     R.fn(w)
-    ok, detail = _sym_blocks(fn)
-    R.check(ok, 'BlockDecomposition.localBounds :: consecutive blocks are adjacent, the first starts at 0, the sizes sum to nPoints', w, 'all identities reduce to 0 in the three orderings', detail)
+    try:
+        ok, detail = _sym_blocks(fn)
+        R.check(ok, 'BlockDecomposition.localBounds :: consecutive blocks are adjacent, the first starts at 0, the sizes sum to nPoints', w, 'all identities reduce to 0 in the three orderings', detail)
+    except AnalysisError as e:
+        # arithmetic outside the symbolic vocabulary (%, conditional expressions ..): finite case analysis of the extracted integer
+        # expressions over nPoints <= 48, nBlocks <= 9 - still no pySDC code runs, only the expressions read from the AST
+        ok, detail = _enum_blocks(fn)
+        R.check(ok, 'BlockDecomposition.localBounds :: consecutive blocks are adjacent, the first starts at 0, the sizes sum to nPoints', w, f'tiling for every nPoints <= 48, nBlocks <= 9 (finite enumeration; the symbolic analysis does not apply: {str(e)[:80]})', detail)
 
 
 @rule('C16', 'C16.R7', 'readers are built from the file on every use: no FieldsIO reader is cached across calls (a re-created file would be decoded with a stale header)', floor=2)
